@@ -19,8 +19,17 @@ After the independent audit (AUDIT-lib.md): the observer checks WHICH object eve
 installs, for every replacement kind (`Mock.expectedTok`: a new mock / factory product per entry, the pair, the
 Wrapper, the caller's own object); `@asynq()` functions / classmethods / staticmethods are a replacement kind of their
 own (`Repl.asyncFn`: installed as they are, but they bind like the function they wrap); the signature defaults of the
-model (`Defaults.current`) are the ones of the tree (autospec=None), so `C19_spec_holds` has no hypothesis on the
-history; family `enterfail` is judged by a protocol model per activation style (`Mock.EnterFail.run`)."""
+model (`Defaults.current`) are the ones of the tree (autospec=None); family `enterfail` is judged by a protocol model
+per activation style (`Mock.EnterFail.run`).
+
+After the second audit (AUDIT2-lib.md, N2): replacements can be SENSITIVE TO ASYNCIO MODE (behaviour `sync` = a fake that
+makes an ordinary synchronous call of another @asynq() function; `Behav.syncCall`; family `modes` and ~8% of the patchers
+of random histories).  The model has `conv` as the code is: the `.asyncio` of an `asynq(sync_fn=new)(new)` pair reached
+through a class / an instance runs `new` inside asyncio mode, the other three conventions do not - an OPEN FINDING
+(signature `fail:asyncio-mode-reaches-replacement/through-class@call`; theorems `C19_conventions_disagree_counterexample`,
+`C19_asyncio_mode_counterexample`; `C19_spec_holds_current_partial` carries the hypothesis that excludes it).  The observer
+now also demands of EVERY observation, tainted history or not, a well-formed result (four outcomes per call, one store entry
+per target) and that construct / call / peek / rebind change no host (`shape@`, `frame@`)."""
 import hashlib
 import json
 import random
@@ -33,39 +42,51 @@ HEADLINE_THEOREMS = [
     "AsynqModel.Mock.C19_restore",
     "AsynqModel.Mock.C19_store_tracks_innermost",
     "AsynqModel.Mock.C19_block_restores",
+    "AsynqModel.Mock.C19_block_restores_balance_necessary",
+    "AsynqModel.Mock.C19_block_restores_skip_necessary",
     "AsynqModel.Mock.C19_block_restores_across_rebind",
     "AsynqModel.Mock.C19_restore_nested_blocks",
     "AsynqModel.Mock.C19_restore_stopall",
     "AsynqModel.Mock.C19_nested_blocks_nodup_necessary",
     "AsynqModel.Mock.C19_stopall_nodup_necessary",
+    "AsynqModel.Mock.C19_conventions_agree_partial",
     "AsynqModel.Mock.C19_conventions_agree",
+    "AsynqModel.Mock.C19_conventions_agree_fake",
     "AsynqModel.Mock.C19_asynq_function_replacement",
-    "AsynqModel.Mock.C19_enter_installs",
     "AsynqModel.Mock.C19_installed_object",
-    "AsynqModel.Mock.C19_noncallable_as_is",
-    "AsynqModel.Mock.C19_noncallable_as_is_own",
-    "AsynqModel.Mock.C19_spec_holds",
     "AsynqModel.Mock.C19_spec_holds_partial",
-    "AsynqModel.Mock.C19_spec_holds_if_autospec_defaults_none",
+    "AsynqModel.Mock.C19_spec_holds_current_partial",
+    "AsynqModel.Mock.C19_spec_holds_module_level",
+    "AsynqModel.Mock.C19_spec_holds_mode_insensitive",
+    "AsynqModel.Mock.C19_spec_holds",
+    "AsynqModel.Mock.C19_asyncio_mode_repaired",
     "AsynqModel.Mock.C19_new_callable_asynq16_counterexample",
-    "AsynqModel.Mock.C19_path_resolved_at_every_enter",
-    "AsynqModel.Mock.C19_path_resolved_at_every_start",
-    "AsynqModel.Mock.C19_object_target_fixed",
-    "AsynqModel.Mock.C19_calls_through_name_reach_replacement",
     "AsynqModel.Mock.EnterFail.C19_enter_failure_restores",
     "AsynqModel.Mock.EnterFail.C19_enter_failure_needs_undo",
-    "AsynqModel.Mock.EnterFail.C19_enter_undo_only_matters_on_failure",
 ]
-# ... and statements that HOLD BY CONSTRUCTION OF THE MODEL (one unfolding / a corollary of C19_conventions_agree; the model
-# has no way to say anything else: objects are immutable values, result kinds are never inspected, `exit` echoes its
-# flag).  They are kept as readable lemmas and audited like the others, but they are NOT evidence for the property: for
-# these four facts the content is the correspondence run (families `kinds`, `rebind`, `shared`, exits by exception).
+# ... and statements that HOLD BY CONSTRUCTION OF THE MODEL (one unfolding of `step` / `enter` / `resolveP` from an
+# arbitrary state, or a corollary of C19_conventions_agree_partial; the model has no way to say anything else: objects are
+# immutable values, result kinds are never inspected, `exit` echoes its flag, `resolveP` is DEFINED as "string -> the
+# current binding, object -> unchanged", `EnterFail.run` does not look at the style for its outcome).  They are kept as
+# readable lemmas and audited like the others, but they are NOT evidence for the property: for these facts the content is
+# the correspondence run (families `product`, `kinds`, `rebind`, `shared`, `enterfail`, exits by exception).
 BY_CONSTRUCTION_THEOREMS = [
     "AsynqModel.Mock.C19_exception_propagates",
     "AsynqModel.Mock.C19_result_object_untouched",
     "AsynqModel.Mock.C19_rebind_touches_no_host",
     "AsynqModel.Mock.C19_shared_replacement_same_object",
+    "AsynqModel.Mock.C19_enter_installs",
+    "AsynqModel.Mock.C19_noncallable_as_is",
+    "AsynqModel.Mock.C19_noncallable_as_is_own",
+    "AsynqModel.Mock.C19_path_resolved_at_every_enter",
+    "AsynqModel.Mock.C19_path_resolved_at_every_start",
+    "AsynqModel.Mock.C19_object_target_fixed",
+    "AsynqModel.Mock.C19_calls_through_name_reach_replacement",
+    "AsynqModel.Mock.EnterFail.C19_enter_undo_only_matters_on_failure",
+    "AsynqModel.Mock.EnterFail.C19_enter_failure_style_irrelevant",
 ]
+HEADLINE = HEADLINE_THEOREMS
+BY_CONSTRUCTION = BY_CONSTRUCTION_THEOREMS
 THEOREMS = HEADLINE_THEOREMS + BY_CONSTRUCTION_THEOREMS
 BUILDS = {"quick": ["py"], "thorough": ["py", "cy"]}
 EXHAUSTIVE = {"quick": False, "thorough": True}
@@ -77,7 +98,8 @@ RULE_OLD = ("exhaustive product target configuration (module function; method vi
         "non-callable object, non-callable int, new_callable callable / non-callable with autospec=None, new_callable "
         "with the signature's own default autospec, @asynq() function / classmethod / staticmethod with a plain or a "
         "generator body) x activation+exit (with normal / by exception, decorator normal / by exception, "
-        "start+stop, start+stopall, start+stop+stop) x replacement returns / raises x patch() / patch.object(); "
+        "start+stop, start+stopall, start+stop+stop) x replacement returns / raises, each cell with patch() AND "
+        "patch.object() in the thorough tier and with ONE of the two (alternating) in the quick tier; "
         "exhaustive pairs of replacement kinds nested on one target in 6 nesting shapes; random histories over 1-3 "
         "targets and 1-6 patchers (nested / sequential / interleaved blocks, start/stop/stopall, calls with args and "
         "kwargs, ~12% deliberately ill-nested or misused). non-trivial = a history with at least one successful "
@@ -89,13 +111,17 @@ RULE = RULE_OLD + (
     "what each convention returns); exotic ARGUMENT objects (None, False, falsy, futures, raising __eq__) and long "
     "argument lists (family `sizes`, up to 40 positional + 20 keyword arguments); REBINDING of the owner named in the "
     "dotted path between construction / first use / second use / inside an open block (family `rebind`: 7 owner "
-    "pairs x 4 scenarios x 8 activation styles x patch()/patch.object() x 5 replacement kinds, plus alternates and "
+    "pairs x 4 scenarios x 8 activation styles x 6 replacement kinds, with patch() and patch.object() each in the "
+    "thorough tier and one of them per cell in the quick tier, plus alternates and "
     "rebind operations in ~25% of the random histories); class decoration (`classdeco`, goes through "
     "_PatchAsync.copy) as a third block style; blocks left by a BaseException-only error; replacement variants "
     "lambda / functools.partial / class object / falsy callable / callable with raising __eq__ / None / falsy value; "
     "falsy original attribute; family `deep`: 3..24 patches of ONE target open at once in mixed styles; family "
     "`shared`: one replacement object given to two patchers; family `enterfail`: new_callable products that take / "
-    "reject attributes x 5 activation styles (judged by Mock.EnterFail)")
+    "reject attributes x 5 activation styles (judged by Mock.EnterFail)"
+    "; SECOND AUDIT: family `modes`: a replacement that makes an ordinary synchronous call of another @asynq() function "
+    "(sensitive to asyncio mode) x 11 target configurations x 26 replacement configurations x 3 activations (quick; 10 in "
+    "thorough), and the same behaviour for ~8% of the patchers of the random histories")
 TRUSTED = [
     "hand-written Lean model AsynqModel.Lib.Mock tied to the code by this differential run only",
     "Python harness checks/c19.py (object <-> token identity registry, vars(host) peeks, recursive-descent "
@@ -104,6 +130,18 @@ TRUSTED = [
     "stopall), CPython descriptor protocol / `with` semantics, asynq.decorators for `asynq(sync_fn=new)(new)`",
 ]
 ASSUMPTIONS = [
+    "OPEN FINDING, inside the statement (not an assumption of the check, a hypothesis of the theorems): a replacement "
+    "whose behaviour depends on asyncio mode - modelled and generated: a fake that makes an ordinary synchronous call of "
+    "another @asynq() function - given as a plain function / classmethod / staticmethod object and reached through a "
+    "class or an instance gets RuntimeError from .asyncio() alone (PSpec.modeExposed; hypothesis `hm` of "
+    "C19_conventions_agree_partial / C19_spec_holds_partial / C19_spec_holds_current_partial, necessity: "
+    "C19_conventions_disagree_counterexample / C19_asyncio_mode_counterexample).  Other ways of being mode-sensitive "
+    "(reading is_asyncio_mode() directly, awaiting) are the same code path and are not generated separately",
+    "a replacement that IS some target's original (`patch('m.f', m.f)`, or `new` = another target's original) is not "
+    "generated and not modelled (model objects are immutable values): the code restores the host by identity, but "
+    "`__enter__` has put `_AsynqWrapper` / `_AsyncioWrapper` attributes on that original for good (afterwards "
+    "`orig.asynq(...)` runs eagerly and returns a ConstFuture).  'The original object is back in place' is claimed, "
+    "checked and proved for WHICH object the host holds, not for the attributes of that object",
     "the replacement object itself is the caller's: `_PatchAsync.__enter__` leaves `.asynq` / `.async` / `.asyncio` "
     "attributes on a callable object / `@asynq()` function given as `new` and `__exit__` does not remove them (on an "
     "`@asynq()` function the instance attribute shadows its own `.asynq` method for good: afterwards `fn.asynq(...)` "
@@ -118,7 +156,13 @@ ASSUMPTIONS = [
     "rebinding is done by the test itself (`setattr(pkg, 'Owner', other)`); only the owner directly before the "
     "attribute in the dotted path is rebound",
     "well-nestedness (per target LIFO, no re-entering an open patcher) is the hypothesis of the restore clause; "
-    "ill-nested histories are still run and compared with the model but the observer claims nothing after them",
+    "ill-nested histories are still run and compared with the model (CORR), but after the FIRST ill-nested operation "
+    "(duplicate enter / start of an open patcher, ending a patch that is not the innermost of its target, ending a "
+    "started patch as a block, stopall over a non-LIFO list) the observer `spec` judges - for ALL targets and the rest of "
+    "the history - only shape (kind of result per operation, four outcomes per call, one store entry per target) and "
+    "frame (construct / call / peek / rebind change no host); which object such a history leaves where is "
+    "unittest.mock's business.  Calls on unpatched targets and on replacements that are not callable where they were "
+    "put are judged for shape only",
     "single thread; patch.dict / patch.multiple are unittest.mock's own and out of scope; class decoration is exercised "
     "for well-nested histories only (a copy of the patcher has its own state, the model identifies it with the patcher)",
 ]
@@ -415,6 +459,28 @@ def shared_cases():
     return cases
 
 
+MODE_ACTS = ["with", "deco-exc", "start-stop"]
+
+
+def modes_cases(tier):
+    """a replacement that is SENSITIVE TO ASYNCIO MODE - a fake that makes an ordinary synchronous call of another
+    @asynq() function (behaviour `sync`) - for every target configuration x replacement kind: the four conventions must
+    still agree (`.asyncio(...)` must not run the replacement inside asyncio mode when the others do not)"""
+    cases = []
+    n = 0
+    for tc in TARGET_CONFIGS:
+        for rc in REPL_CONFIGS:
+            for act in (ACTIVATIONS3 if tier == "thorough" else MODE_ACTS):
+                n += 1
+                api = ["patch", "object"][n % 2]
+                create = tc[2] == "absent"
+                inner = [["call", 0, [1], [[0, 4]]], ["call", 0, [], []]]
+                ops = [construct(0, 0, rc, create, ["sync", 50 + n % 40], api)]
+                ops += activation_ops(0, act, inner) + [["call", 0, [6], []]]
+                cases.append({"targets": [tgt(tc)], "ops": ops, "family": "modes"})
+    return cases
+
+
 ENTERFAIL_TARGETS = [TARGET_CONFIGS[0], TARGET_CONFIGS[1], TARGET_CONFIGS[3], TARGET_CONFIGS[9]]
 ENTERFAIL_PRODUCTS = [("accepting", ""), ("noncallable", ""), ("rejecting", "slots"), ("rejecting", "typeerr")]
 ENTERFAIL_STYLES = ["with", "deco", "classdeco", "start-stop", "start-stopall"]
@@ -467,6 +533,8 @@ def gen_history(rng, malformed=False):
             behav = behav_of(rng.choice(EKINDS if raises else RKINDS), 10 + p, raises)
         else:
             behav = ["ret", 10 + p] if rng.random() < 0.8 else ["raise", 1 + p % 3]
+        if rng.random() < 0.08:
+            behav = ["sync", 10 + p]      # a fake that makes a synchronous asynq call
         share = None
         explicit = [o for o in ops if o[0] == "construct" and isinstance(o[3], str) and o[3] != "default"
                     and share_of(o) is None and not (o[3] == "value" and o[8] == "none")]
@@ -588,6 +656,7 @@ def plan(tier, seed):
     rng = random.Random(seed * 1000003 + 19)
     cases = corpus() + product_cases(tier) + nested_cases()
     cases += kinds_cases(tier) + sizes_cases() + rebind_cases(tier) + deep_cases() + shared_cases() + enterfail_cases()
+    cases += modes_cases(tier)
     n = 1200 if tier == "quick" else 20000
     for i in range(n):
         cases.append(gen_history(rng, malformed=(i % 8 == 7)))
@@ -645,6 +714,8 @@ def shrink(case):
     # ordinary result / exception, ordinary block style, ordinary replacement variant
     for i, o in enumerate(ops):
         involved = o[0] == "construct" and (o[1] in shared or share_of(o) is not None)
+        if o[0] == "construct" and o[6][0] == "sync" and not involved:
+            yield mk(ops[:i] + [o[:6] + [["ret", o[6][1]]] + o[7:]] + ops[i + 1:])
         if o[0] == "construct" and len(o[6]) > 2 and not involved:
             b = ["ret", 10 + o[1]] if o[6][0] == "ret" else ["raise", o[6][1]]
             yield mk(ops[:i] + [o[:6] + [b] + o[7:]] + ops[i + 1:])
@@ -1022,10 +1093,15 @@ def run_case(case):
                                                              arg_tok(vv)) for kk, vv in k.items())))
         if behav[0] == "raise":
             raise behav[1]
+        if behav[0] == "sync":
+            # a fake that delegates: an ORDINARY SYNCHRONOUS call of another @asynq() function; its value is the result
+            return dep_fn(behav[1] - 1)
         return behav[1]
 
     def realise(behav):
         """[kind-of-behaviour, the very object to return / raise]"""
+        if behav[0] == "sync":
+            return ["sync", behav[1]]
         if behav[0] == "raise":
             return ["raise", err_obj(behav[1], behav[2] if len(behav) > 2 else "exception")]
         if len(behav) > 2 and behav[2] != "plain":
@@ -1161,6 +1237,8 @@ def run_case(case):
             return "(raised attributeError)"
         if isinstance(e, ValueError):
             return "(raised valueError)"
+        if isinstance(e, RuntimeError) and str(e).startswith("asyncio mode does not support synchronous calls"):
+            return "(raised runtimeError)"      # asynq's refusal of a synchronous call in asyncio mode
         return "(raised other %s)" % type(e).__name__
 
     def default_is_none(fn):
@@ -1577,7 +1655,8 @@ def run_case(case):
                      + ("/autospecNone" if o[5] else "") for o in constructs})
     if any(share_of(o) is not None for o in constructs):
         feats.append("shared-replacement")
-    feats += sorted({"behav=%s/%s" % (o[6][0], o[6][2] if len(o[6]) > 2 else ("plain" if o[6][0] == "ret" else "exception"))
+    feats += sorted({"behav=%s/%s" % (o[6][0], o[6][2] if len(o[6]) > 2 else
+                                      {"ret": "plain", "raise": "exception"}.get(o[6][0], "asynq-call"))
                      for o in constructs})
     feats += sorted({"target=%s/%s/%s/%s%s" % (ts["kind"], ts["where"], ts["host"], ts["via"],
                                                "/alternate" if "slot" in ts else "") for ts in tspecs})
